@@ -142,6 +142,21 @@ static bool isContinuous(const DiscreteDistributionInterface* d) {
   return d && (dynamic_cast<const GammaDiscreteDistribution*>(d) || dynamic_cast<const BetaDiscreteDistribution*>(d) || dynamic_cast<const GaussianDiscreteDistribution*>(d)
     || dynamic_cast<const ExponentialDiscreteDistribution*>(d) || dynamic_cast<const TruncatedExponentialDiscreteDistribution*>(d) || dynamic_cast<const UniformDiscreteDistribution*>(d));
 }
+// group xq: for every quantile the discretisation asked for (recorded `Q x -> q`), pProb(q): exploration of
+// "pProb and qProb are mutually inverse"
+static std::string inverseStr() {
+  std::string s = " ; xq";
+  if (g_continuous && g_cur) {
+    bool r = g_rec; g_rec = false;
+    std::vector<LogEntry> log = g_log;
+    // only at quantiles strictly inside the domain (pGamma(+inf) does not return: RandomTools, property C08)
+    double lo = g_cur->getLowerBound(), hi = g_cur->getUpperBound();
+    try { for (auto& e : log) if (e.fn == 'Q') s += " " + H(e.x) + " " + H(e.r) + " " + ((e.r > lo && e.r < hi) ? H(g_cur->pProb(e.r)) : std::string("nan")); }
+    catch (...) { s = " ; xq"; }
+    g_rec = r;
+  }
+  return s;
+}
 static std::string exploreStr() {
   std::string sp = " ; xp", se = " ; xe";
   if (g_continuous && g_cur) {
@@ -166,7 +181,7 @@ static std::string altStr() {
 }
 static std::string dump() {
   if (!g_cur) return "none" + altStr();
-  std::string s = dumpOf(*g_cur) + logStr() + exploreStr();
+  std::string s = dumpOf(*g_cur) + logStr() + exploreStr() + inverseStr();
   for (auto* c : componentsOf(*g_cur)) s += " / " + dumpOf(*c);
   return s + altStr();
 }
@@ -179,6 +194,23 @@ template<class T, class... A> static bool assignAs(const DiscreteDistributionInt
   out.reset(q);
   *q = *p;
   return true;
+}
+// `*cur = *cur` through the assignment operator of its dynamic class
+template<class T> static bool selfAssignAs(DiscreteDistributionInterface& d) {
+  auto* p = dynamic_cast<Rec<T>*>(&d);
+  if (!p) return false;
+  Rec<T>& r = *p;
+  *p = r;
+  return true;
+}
+static void selfAssign() {
+  if (!g_cur) throw Exception("no current");
+  DiscreteDistributionInterface& c = *g_cur;
+  bool ok = selfAssignAs<GammaDiscreteDistribution>(c) || selfAssignAs<BetaDiscreteDistribution>(c) || selfAssignAs<GaussianDiscreteDistribution>(c)
+    || selfAssignAs<ExponentialDiscreteDistribution>(c) || selfAssignAs<TruncatedExponentialDiscreteDistribution>(c) || selfAssignAs<UniformDiscreteDistribution>(c)
+    || selfAssignAs<ConstantDistribution>(c) || selfAssignAs<SimpleDiscreteDistribution>(c) || selfAssignAs<InvariantMixedDiscreteDistribution>(c)
+    || selfAssignAs<MixtureOfDiscreteDistributions>(c);
+  if (!ok) throw Exception("class");
 }
 static void forkAssign() {
   if (!g_cur) throw Exception("no current");
@@ -294,6 +326,7 @@ static std::string opInner(const Toks& t) {
   if (!g_cur) return "none" + altStr();
   // a second object: the copy constructor / the assignment operator; the source stays current
   if (o == "fork") return guarded([&] { bool r = g_rec; g_rec = false; std::unique_ptr<DiscreteDistributionInterface> c(g_cur->clone()); g_rec = r; g_alt = std::move(c); });
+  if (o == "selfassign") return guarded([&] { bool r = g_rec; g_rec = false; try { selfAssign(); } catch (...) { g_rec = r; throw; } g_rec = r; });
   if (o == "forkassign") return guarded([&] { bool r = g_rec; g_rec = false; try { forkAssign(); } catch (...) { g_rec = r; throw; } g_rec = r; });
   if (o == "setp") return guarded([&] { g_cur->setParameterValue(hexToStr(t[1]), D(t[2])); });
   if (o == "setn") return guarded([&] { g_cur->setNumberOfCategories(toU(t[1])); });
